@@ -402,6 +402,20 @@ def next (σ : Store) : Nat → St → St × Option Ev
 
 end LB
 
+/-! ## `FST.search` (match.py `search`) as a consumer-side wrapper of `walk` -/
+namespace Search
+
+/-- What `search()` forwards to the walk generator for one yielded match, given the values the consumer sent to the
+search generator (in order): every consumer `send` is forwarded; only if the consumer sent nothing and `nested=False`
+does `search` itself send `False` ("do not recurse into a match").  (match.py, both branches of `search`:
+`if (sent := (yield match)) is not None: gen.send(sent); while ...: gen.send(sent)` / `elif not nested: gen.send(False)`) -/
+def forwarded (nested : Bool) (sends : List Bool) : List Bool :=
+  match sends with
+  | [] => if nested then [] else [false]
+  | _ => sends
+
+end Search
+
 /-! ## Concrete store: a rose tree of linked (AST, FST) pairs -/
 
 inductive Tree where
